@@ -44,6 +44,7 @@ IsEv(e) == /\ l <= EndOf(s0)
 \* the cut is an allowed one and the body has the length the specification computes
 TEncode == /\ IsEv("Encode")
            /\ Trace[l].same = TRUE
+           /\ Trace[l].stable = TRUE   \* the returned body is still the same bytes after later encodes (no shared buffer)
            /\ Encode(Trace[l].cut)
            /\ Trace[l].len = WireLen(Enc(ty, w'))
 
